@@ -41,13 +41,15 @@ def cramer(A, b, n):
     return out
 
 
-def run_solver(repo, kinds, solve_for=('tidal',), nondimensionalize=False, slices_per_layer=4, incompressible=False, extra_kwargs=None):
-    """kinds: tuple of KIND names, innermost first."""
+def run_solver(repo, kinds, solve_for=('tidal',), nondimensionalize=False, slices_per_layer=4, incompressible=False, extra_kwargs=None, slices_by_layer=None):
+    """kinds: tuple of KIND names, innermost first.  slices_by_layer (optional): an uneven -- possibly malformed -- layer structure, e.g. (4, 0, 4)."""
     ms = repo.by_path('TidalPy/RadialSolver/solver.pyx')
     f = ms.defs.get('cf_radial_solver')
     if not isinstance(f, ast.FunctionDef):
         raise AnalysisError('cf_radial_solver vanished')
-    nl = len(kinds); ns = slices_per_layer; total = nl * ns
+    nl = len(kinds); ns = slices_per_layer
+    per = list(slices_by_layer) if slices_by_layer is not None else [ns] * nl
+    total = sum(per)
     r = Run(); r.kinds = kinds; r.total = total; r.ns = ns
     r.sym = {'l': X.atom('l', 'pos'), 'rho_bulk': X.atom('rho_bulk', 'pos'), 'w': X.atom('frequency', 'pos')}
     # concrete, strictly increasing radii (the driver counts slices by comparing radii); the planet radius is the last one
@@ -64,7 +66,9 @@ def run_solver(repo, kinds, solve_for=('tidal',), nondimensionalize=False, slice
     ltypes = Arr('layer_types'); lstat = Arr('is_static'); linc = Arr('is_incompressible'); lup = Arr('upper_radius')
     for k, kd in enumerate(kinds):
         ltypes.store[k] = KIND[kd][0]; lstat.store[k] = KIND[kd][1]; linc.store[k] = incompressible
-        lup.store[k] = radii[(k + 1) * ns - 1]
+        top = sum(per[:k + 1]) - 1
+        # upper radius of the layer = radius of its last slice (a layer without slices ends where the layer below ends; below the first slice if nothing lies below)
+        lup.store[k] = radii[top] if top >= 0 else X.const(1) / 2
     for a in (ltypes, lstat, linc, lup): a.extent = nl
     extra_kwargs = dict(extra_kwargs or {})
     fail_layer = extra_kwargs.pop('__fail_layer__', None)
@@ -129,7 +133,10 @@ def run_solver(repo, kinds, solve_for=('tidal',), nondimensionalize=False, slice
                     out.set(s_ * MAXY + j, X.atom(f'start[{s_}][{j}]', 'complex'))
             return None
         if base in ('allocate_mem', 'reallocate_mem'):
-            return Arr('heap')
+            blk = Arr('heap block ' + (args[-1] if args and isinstance(args[-1], str) else (args[1] if len(args) > 1 and isinstance(args[1], str) else '')))
+            nb = args[0] if base == 'allocate_mem' else (args[1] if len(args) > 1 else None)
+            blk.nbytes = nb if isinstance(nb, int) and not isinstance(nb, bool) else None        # the cast that follows turns it into an extent in elements
+            return blk
         if base in ('PyMem_Free', 'free_mem', 'free'):
             return None
         if base.endswith('zgesv'):
